@@ -39,6 +39,10 @@ func c09Scenarios() []ConcScenario {
 	// goroutine that reads, the data by the relay goroutine)
 	out = append(out, ConcScenario{Name: "D11-ws-pings-while-host-sends", Plans: []TunnelPlan{
 		{Kind: "ws", ConnID: "A", User: "ua", IP: "10.0.0.1", Host: "ha.example:3389", Script: []string{"data:[A-1]", "ping", "recvbytes:14", "ping", "ping", "recvbytes:14", "drop"}, Chunks: [][]byte{[]byte("<host-chunk-1>"), []byte("<host-chunk-2>")}}}})
+	// D12: the host has 64 KiB + 1 queued when the relay goroutine reads (a burst while the client is busy): the
+	// packets written to the client stay well-formed
+	out = append(out, ConcScenario{Name: "D12-ws-host-burst-64k", MaxSteps: 20000, Plans: []TunnelPlan{
+		{Kind: "ws", ConnID: "A", User: "ua", IP: "10.0.0.1", Host: "ha.example:3389", Script: []string{"data:[A-1]", "recvbytes:65537", "drop"}, Chunks: [][]byte{bytes.Repeat([]byte("h"), 65537)}}}})
 	// D9: two tunnels whose real tokens are verified by the real security callbacks at the same time
 	out = append(out, ConcScenario{Name: "D9-two-ws-real-tokens", Deviation: true, RoundRobin: true, RealCookie: true, Plans: []TunnelPlan{
 		{Kind: "ws", ConnID: "A", User: "ua", IP: "10.0.0.1", Host: "ha.example:3389", Script: []string{"data:[A-1]", "drop"}},
@@ -115,7 +119,7 @@ func c09(env *Env, rep *Report) {
 		names = append(names, s.Name)
 	}
 	rep.Rule = "all thread schedules (client(s), real HTTP handler(s), the gateway's relay goroutine, backend(s)) of the drivers " + strings.Join(names, ", ") +
-		" and D7 (a connection-file download concurrent with a tunnel's channel creation, host list shared as main.go shares it), D8 (two legacy tunnels, back-to-back traffic, one write per read, lockstep default schedule), D11 (websocket PING frames while the host sends), D10 (two logged-in browsers downloading at the same time from a gateway with an .rdp template), D9 (two websocket tunnels whose real tokens are verified by the real security callbacks, the identity-provider round trip being a scheduling point) up to the preemption / deviation bound, on the real handlers over in-memory connections; oracle per schedule: no race report from the race runtime (race build, hand-off invisible to it), " +
+		" and D7 (a connection-file download concurrent with a tunnel's channel creation, host list shared as main.go shares it), D8 (two legacy tunnels, back-to-back traffic, one write per read, lockstep default schedule), D12 (a 64 KiB + 1 burst of the host), D11 (websocket PING frames while the host sends), D10 (two logged-in browsers downloading at the same time from a gateway with an .rdp template), D9 (two websocket tunnels whose real tokens are verified by the real security callbacks, the identity-provider round trip being a scheduling point) up to the preemption / deviation bound, on the real handlers over in-memory connections; oracle per schedule: no race report from the race runtime (race build, hand-off invisible to it), " +
 		"client byte stream decodes into whole well-formed packets whose data payloads are a prefix of what the host sent, no panic in any thread. distinct_nontrivial = distinct per-schedule observations."
 	rep.Assumptions = append(rep.Assumptions,
 		"scheduling points are the blocking operations and every Write/Close on a connection, dial, spawn, lock/unlock; a single Write is atomic (as in Go's network layer)",
@@ -165,6 +169,9 @@ func c09(env *Env, rep *Report) {
 			if env.thorough() {
 				b = 3
 			}
+		}
+		if strings.HasPrefix(sc.Name, "D12") && !env.thorough() {
+			b = 0 // 17 packets of 4086 bytes: the default schedule in quick, bound 1 in thorough
 		}
 		exploreConc(env, rep, sc, b, rl, c09Check(sc))
 	}
